@@ -145,6 +145,8 @@ static std::string step(const std::string &line) {
             return "I " + std::to_string((long)(r - &root->ports[0]));
         }
         const rtosc::Port *r = root->apropos(p);
+        // E=?: the property does not constrain this address; only memory safety is observed
+        if (w.size() >= 4 && w[3] == "E=?") return "A *";
         if (!r) return "A NULL";
         std::string ix;
         if (!find_port(root, r, ix)) return "A foreign-pointer";
@@ -168,6 +170,7 @@ static std::string step(const std::string &line) {
         const char *s = t.keep(trunc(str), true);
         const char *n = null_needle ? nullptr : t.keep(trunc(needle), true);
         std::string out = "S ";
+        bool free_loc = w.size() < 9 || w[8] == "E=?";   // location the property does not constrain
         {   // array overload
             size_t max_args = max_ports << 1, max_types = max_args + 1;
             Exact types(max_types, 0x55);
@@ -181,7 +184,10 @@ static std::string step(const std::string &line) {
                 ty.push_back(c);
                 if (c == 's') a.push_back(args[k].s ? "s:" + hexs(args[k].s) : std::string("s:NULL"));
                 else if (c == 'b')
-                    a.push_back(args[k].b.data ? "b:" + hex(args[k].b.data, (size_t)args[k].b.len) : std::string("b:N"));
+                    // an empty blob is printed as b:- whatever its data pointer is
+                    a.push_back(args[k].b.len == 0 ? std::string("b:-")
+                                : args[k].b.data ? "b:" + hex(args[k].b.data, (size_t)args[k].b.len)
+                                                 : "b:NULL+" + std::to_string((long)args[k].b.len));
                 else a.push_back("?");
             }
             free(args);
@@ -213,6 +219,7 @@ static std::string step(const std::string &line) {
                        join(canon(opt != 0, query, a)) + " X=" + (raw ? hex((const unsigned char *)m, len) : std::string("-"));
             }
         }
+        if (free_loc) return "S *";
         return out;
     }
     return "bad-op";
